@@ -159,10 +159,8 @@ Proof.
       pose proof (credit_nonneg q []) as Hc1.
       destruct (q_mode q) eqn:Em.
       * apply Hgo. rewrite Hs. cbn [wpc]. unfold credit in *. destruct (q_ctx q); lia.
-      * destruct got as [|g0 got'].
-        -- apply Hgo. rewrite Hs. cbn [wpc]. lia.
-        -- apply Hgo. rewrite Hs. cbn [wpc]. unfold credit_pub, single. rewrite Em. unfold credit. destruct (q_ctx q); lia.
-      * apply Hgo. rewrite Hs. cbn [wpc]. unfold credit_pub, single. rewrite Em. unfold credit. destruct (q_ctx q); lia.
+      * apply Hgo. rewrite Hs. cbn [wpc]. lia.
+      * apply Hgo. rewrite Hs. cbn [wpc]. lia.
   - (* raising the completed flag after the end of the source *)
     right.
     assert (Hn : is_neutral (c_sh c) (c_pool c t) = false) by (unfold is_neutral; rewrite Hpc; reflexivity).
@@ -421,7 +419,6 @@ Proof.
     destruct (q_mode q); destruct (src_next e (c_sh c)) as [xv|].
     all: try (apply Hg; reflexivity).
     all: try (destruct (N.of_nat (length (xv :: got)) =? q_n q); apply Hg; reflexivity).
-    destruct got; apply Hg; reflexivity.
   - rewrite (istep_setf e c t q b got Hpc). destruct (q_mode q).
     + destruct (finish_form' c t (with_f (c_sh c) true) (LAtom t SF AStore 1 0 (o_setf q)) q (Ok PREnd)) as (ts' & evs & -> & _).
       apply iC_flag. reflexivity.
